@@ -295,8 +295,9 @@ SendReqTrailers ==
   /\ UNCHANGED <<nextSid, nOther, nGoAway, srvLast>>
 
 SendReqRst ==
-  /\ \E s \in SidSet : /\ est[s].on /\ est[s].rcl \in {0, 1} /\ Room(1)
-       /\ Put("req", <<Fr("RST", "req", s, "", "", FALSE, FALSE, 0, 0, "cancel", 0, <<>>, 0, 2, "")>>)
+  \* any error code resets the stream, NO_ERROR included
+  /\ \E s \in SidSet, code \in {"cancel", "no"} : /\ est[s].on /\ est[s].rcl \in {0, 1} /\ Room(1)
+       /\ Put("req", <<Fr("RST", "req", s, "", "", FALSE, FALSE, 0, 0, code, 0, <<>>, 0, 2, "")>>)
        /\ est' = [est EXCEPT ![s].rcl = 2]
   /\ UNCHANGED <<nextSid, hsq, nOther, nGoAway, srvLast>>
 
@@ -338,9 +339,9 @@ SendRespRst ==
        \* reset the stream (NO_ERROR: "stop sending", RFC 9113 8.1) - once here
        /\ CASE code = "refused" -> est[s].pst = 0
             [] code = "cancel"  -> est[s].pst \in {0, 1}
-            [] OTHER            -> est[s].pst = 2
+            [] OTHER            -> est[s].pst \in {1, 2}    \* NO_ERROR in the middle of a response is a reset like any other
        /\ Put("resp", <<Fr("RST", "resp", s, "", "", FALSE, FALSE, 0, 0, code, 0, <<>>, 0, 2, "")>>)
-       /\ est' = [est EXCEPT ![s].pst = IF code = "no" THEN 3 ELSE 2]
+       /\ est' = [est EXCEPT ![s].pst = IF code = "no" /\ est[s].pst = 2 THEN 3 ELSE 2]
   /\ UNCHANGED <<nextSid, hsq, nOther, nGoAway, srvLast>>
 
 SendGoAway ==
